@@ -227,6 +227,8 @@ def _written_cases(tier, seed):
     for k in ((0, 2) if tier == 'quick' else range(len(site.PRIVACY_SETS))):
         yield {'written': 'B', 'privacy': k}
     yield {'written': 'acme'}
+    for k in ((1,) if tier == 'quick' else range(4)):
+        yield {'written': 'kitchen', 'options': k}
 
 
 def _check_written(case):
@@ -238,6 +240,10 @@ def _check_written(case):
         files = {'acme/__init__.py': '"""Root."""\nVERSION = 1\ndef setup(): pass\n', 'acme/acme.py': 'class acme:\n    def acme(self): pass\n    attr = 1\n',
                  'acme/other.py': 'def f(): pass\nCONST = 2\nclass K:\n    cv = 1\n    def __init__(self):\n        self.iv = 2\n    @property\n    def p(self): pass\n'}
         argv = []
+    elif case['written'] == 'kitchen':
+        from replay import kitchen
+        o_ = kitchen.OPTION_SETS[case['options']]
+        files, argv = kitchen.KITCHEN, [f'--privacy={r}' for r in o_['rules']] + o_['extra']
     else:
         files, argv = site.PROJECT_B, [f'--privacy={r}' for r in site.PRIVACY_SETS[case['privacy']]]
     rc, out, d = site.run_project(files, argv)
